@@ -4,15 +4,16 @@ import json, os, struct, itertools
 from vlib import core
 
 
-def build(ctx):
+def build(ctx, alt=False):
     R = core.REPO
-    o = os.path.join(ctx.work, "strtod.o")
-    ctx.sh(["gcc", "-std=c11", "-D_POSIX_C_SOURCE=200809L", "-g", "-O1", "-fsanitize=address", "-fno-omit-frame-pointer", "-fno-builtin", "-w", "-I" + R,
+    sfx = "_alt" if alt else ""
+    o = os.path.join(ctx.work, "strtod%s.o" % sfx)
+    ctx.sh(["gcc", "-std=c11", "-D_POSIX_C_SOURCE=200809L", "-g"] + core.opt_flags(alt) + ["-fsanitize=address", "-fno-omit-frame-pointer", "-fno-builtin", "-w", "-I" + R,
             "-include", os.path.join(core.HARNESS, "rename_strtod.h"), "-c", os.path.join(R, "compat/libc/stdlib/strtod.c"), "-o", o], timeout=300)
-    o2 = os.path.join(ctx.work, "strtod32.o")   # the build for targets without binary64 parsing
-    ctx.sh(["gcc", "-std=c11", "-D_POSIX_C_SOURCE=200809L", "-g", "-O1", "-fsanitize=address", "-fno-omit-frame-pointer", "-fno-builtin", "-w", "-I" + R, "-DWITHOUT_ATOF64",
+    o2 = os.path.join(ctx.work, "strtod32%s.o" % sfx)   # the build for targets without binary64 parsing
+    ctx.sh(["gcc", "-std=c11", "-D_POSIX_C_SOURCE=200809L", "-g"] + core.opt_flags(alt) + ["-fsanitize=address", "-fno-omit-frame-pointer", "-fno-builtin", "-w", "-I" + R, "-DWITHOUT_ATOF64",
             "-include", "stdlib.h", "-Dstrtod=igv32_strtod", "-Datof=igv32_atof", "-c", os.path.join(R, "compat/libc/stdlib/strtod.c"), "-o", o2], timeout=300)
-    return ctx.cxx("drv_float", ["drv_float.cpp", R + "/igris/util/numconvert.c", R + "/igris/dprint/dprint_func_impl.c"], flags=["-fno-access-control"], objs=[o, o2])
+    return ctx.cxx("drv_float" + sfx, ["drv_float.cpp", R + "/igris/util/numconvert.c", R + "/igris/dprint/dprint_func_impl.c"], flags=["-fno-access-control"], objs=[o, o2], alt=alt)
 
 
 def f32bits(x):
@@ -181,6 +182,11 @@ def check(ctx):
     bad = ctx.judge("FloatTrace", traces, timeout=3000)
     for b in bad:
         b["driver"] = "drv_float"
+    # the second build configuration (size-optimised, plain char unsigned) on part of the executions
+    ta = ctx.drive(build(ctx, alt=True), core.subset_executions(script, ctx.seed, 0.5 if ctx.thorough else 0.25), "float_alt")
+    bada = ctx.judge("FloatTrace", [ta], timeout=3000)
+    for b in bada: b["driver"] = "drv_float@alt"
+    bad += bada
     ctx.report(bad)
     ctx.assumptions += [
         "supported magnitude range of the renderer: every argument that is finite as a binary32 value (doubles beyond FLT_MAX become inf in the float renderer: for them only the universal clauses are judged - no non-numeric character, no write beyond the terminator, inf tokens allowed)",
@@ -216,7 +222,7 @@ def line_of(e):
 
 def replay(ctx, path):
     d = json.load(open(path))
-    drv = build(ctx)
+    drv = build(ctx, alt=core.is_alt(d))
     if d["event"].get("e") == "Fault":
         return core.replay_fault(ctx, d, drv, "FloatTrace", path)
     t = ctx.drive(drv, ["R", line_of(d["event"])], "replay")
